@@ -32,7 +32,7 @@ warnings.filterwarnings('ignore')
 STRICT = ('simplify', 'simplify_series', 'simplify_parallel', 'remove_dangling', 'remove_disconnected',
           'renumber', 'copy')
 COMPONENTWISE = ('expand', 's_model', 'ac_model', 'noise_model_killed', 'noise_model', 'replace_switches',
-                 'replace_switches_before', 'subs')
+                 'replace_switches_before', 'subs', 'noise_killed_s_model')
 
 
 # =========================================================================== worker (real Lcapy)
@@ -152,6 +152,11 @@ def worker_main():
             n = cct.noise_model()
             noise = [name for name, e in n.elements.items() if e.type == 'V' and e.keyword[1] == 'noise']
             return n.kill(*noise) if noise else n
+        if op == 'noise_killed_s_model':
+            # two componentwise rewrites in a row: each allots dummy nodes, which must stay distinct
+            n = cct.noise_model()
+            noise = [name for name, e in n.elements.items() if e.type == 'V' and e.keyword[1] == 'noise']
+            return (n.kill(*noise) if noise else n).s_model()
         if op == 'replace_switches':
             return cct.replace_switches(kw.get('t', 0))
         if op == 'subs':
@@ -669,9 +674,10 @@ def gen_rewrites(rng, ck, quick):
                 pool.append({'op': 'renumber', 'kwargs': {'node_map': dict(zip(keys, rng.sample(small, len(keys))))}, 'must': True})
     for op in ('copy', 'expand', 'noise_model_killed'):
         pool.append({'op': op, 'kwargs': {}})
-    pool.append({'op': 's_model', 'kwargs': {}, 'must': True})
+    pool.append({'op': 's_model', 'kwargs': {}, 'must': rng.random() < 0.5})
     pool.append({'op': 'ac_model', 'kwargs': {'w0': [rng.randint(1, 9), rng.randint(1, 4)]}, 'no_solve': True})
     pool.append({'op': 'noise_model', 'kwargs': {}, 'no_solve': True})
+    pool.append({'op': 'noise_killed_s_model', 'kwargs': {}})
     pool.append({'op': 'replace_switches', 'kwargs': {'t': rng.randint(0, 5)}})
     # subs: a variant with symbolic values
     syms = {}
@@ -1121,6 +1127,15 @@ def run(chk, replay=None):
                             cnt.setdefault(n, [0, 0])
                             cnt[n][0 if x[0][0] in 'OA' else 1] += 1
                     return {n for n, (o, r) in cnt.items() if o > 0 and r == 0}
+                dcount = {}
+                for x in rr['canon']:
+                    for n in x[1]:
+                        if n.startswith('_d'):
+                            dcount[n] = dcount.get(n, 0) + 1
+                if op == 'noise_killed_s_model' and any(v > 2 for v in dcount.values()):
+                    # `_dummy_node_name` restarts at `_nodeanon1` on the netlist made by the first rewrite: a dummy node
+                    # of the second rewrite coincides with one of the first and the two are merged
+                    flagged.append(('-', '-', 'dummy-node-reused'))
                 if stranded(rr['canon']) - stranded(orig_canon):
                     # dangling removal does not count open-circuit components: it strips everything
                     # an `O` observer is attached to and leaves the observer on a floating node
